@@ -167,21 +167,9 @@ def c_per_member(P):
     if kind == "raise":
         P.prove("never_raises", False, exc=P.resolve_cls(res))
         return
-    init_false_dec = z3.And(has_init, dec_init.z == z3.StringVal("False"))
     if isinstance(res, list) and len(res) == 0 and not seen.get("done"):
         pass
     P.cover("_dataclass_parameters")
-
-
-@contract("C18", "_dataclass_parameters.init_false", [DC + "_dataclass_parameters"], floor=1, replay="replay_dataclasses")
-def c_init_false(P):
-    H = Heap(P)
-    cls = H.obj("cls", ["Class"])
-    cls.fields["decorators"] = []
-    P.opaque_hooks[DC + "_dataclass_arguments"] = lambda P_, a, k: {"init": "False"}
-    cls.fields["members"] = {"x": H.obj("x", ["Attribute"])}
-    kind, res = outcome(P, lambda: call(P, DC + "_dataclass_parameters", cls))
-    P.prove("init_false_gives_no_parameters", kind == "ok" and res == [])
 
 
 @contract("C18", "_set_dataclass_init", [DC + "_set_dataclass_init"], floor=6, replay="replay_dataclasses", shard_bits=2)
